@@ -155,9 +155,42 @@ def run_results(ctx, want: str):
     return totals
 
 
+def nested_subtype_spread(g):
+    """F30: a named fragment on an ABSTRACT type contains (at its top level, possibly through further
+    spreads) a spread of a fragment on a different type that is a sub type of it.  At an abstract position
+    such nested spreads are neither unpacked into the base class nor turned into a variant class."""
+    cached = getattr(g, "_f30", None)
+    if cached is not None:
+        return cached
+    from graphql import GraphQLInterfaceType, GraphQLUnionType
+    S = g.schema
+    frags = {d.name.value: d for d in g.doc.definitions if isinstance(d, FragmentDefinitionNode)}
+    out = False
+    for f in frags.values():
+        t = S.type_map.get(f.type_condition.name.value)
+        if not isinstance(t, (GraphQLInterfaceType, GraphQLUnionType)):
+            continue
+        seen, todo = set(), [f]
+        while todo and not out:
+            cur = todo.pop()
+            for sel in cur.selection_set.selections:
+                if isinstance(sel, FragmentSpreadNode) and sel.name.value not in seen:
+                    seen.add(sel.name.value)
+                    sub = frags[sel.name.value]
+                    st = S.type_map.get(sub.type_condition.name.value)
+                    if st is not t and st is not None and S.is_sub_type(t, st):
+                        out = True
+                    elif st is t:
+                        todo.append(sub)
+    g._f30 = out
+    return out
+
+
 def finding_class(g, mp, opname, path):
     if in_merge_class(mp, opname, path or []):
         return "F27-unmerged-composite-field"
+    if nested_subtype_spread(g):
+        return "F30-subtype-spread-inside-abstract-fragment"
     if "cond_fragment" in g.sc.features:
         return "F3-conditional-fragment"
     if "foreign_cond" in g.sc.features:
